@@ -31,7 +31,8 @@ import (
 )
 
 type Scenario struct {
-	Kind      string `json:"kind"`     // evict | stop-idle | stop-flood | stop-init | init-fail
+	Kind      string `json:"kind"`     // evict | evict-unpackable | stop-idle | stop-flood | stop-init | init-fail
+	Unpack    string `json:"unpack,omitempty"` // evict-unpackable: "oversize" (fits the server MTU, exceeds the client MTU 1400) | "domain" (unresolvable domain target, socks5 server)
 	Server    string `json:"server"`   // direct | socks5 | ss2022
 	Batch     string `json:"batch"`    // no | sendmmsg
 	NatMs     int    `json:"nat_ms"`   // configured NAT timeout
@@ -66,6 +67,8 @@ type Result struct {
 	FirstReply    bool     `json:"first_reply"`
 	Evicted       bool     `json:"evicted"`
 	ReplyAfter    bool     `json:"reply_after"`
+	PackFailures  int      `json:"pack_failures"`
+	StartedAfter  int      `json:"started_after"`
 	Started       int      `json:"started"`
 	UpFinished    int      `json:"up_finished"`
 	DownFinished  int      `json:"down_finished"`
@@ -166,8 +169,18 @@ type client struct {
 	payload []byte
 }
 
-func (c *client) send(seq uint32) error {
+func (c *client) send(seq uint32) error { return c.sendKind(seq, "") }
+
+// sendKind sends a normal datagram (unpack == "") or one the relay's outgoing client cannot pack.
+func (c *client) sendKind(seq uint32, unpack string) error {
 	p := append([]byte(nil), c.payload...)
+	if unpack == "oversize" {
+		n := 1400
+		if c.server == "socks5" {
+			n = 1390
+		}
+		p = make([]byte, n)
+	}
 	if len(p) >= 4 {
 		p[0], p[1], p[2], p[3] = byte(seq>>24), byte(seq>>16), byte(seq>>8), byte(seq)
 	}
@@ -176,6 +189,13 @@ func (c *client) send(seq uint32) error {
 	case "direct":
 		pkt = p
 	case "socks5":
+		if unpack == "domain" {
+			d := "nonexistent.invalid"
+			pkt = append([]byte{0, 0, 0, 3, byte(len(d))}, d...)
+			pkt = append(pkt, byte(c.target.Port()>>8), byte(c.target.Port()))
+			pkt = append(pkt, p...)
+			break
+		}
 		a := c.target.Addr().As4()
 		pkt = append([]byte{0, 0, 0, 1, a[0], a[1], a[2], a[3], byte(c.target.Port() >> 8), byte(c.target.Port())}, p...)
 	case "ss2022":
@@ -319,6 +339,10 @@ func runChild(sc Scenario) (res Result) {
 	cfgm := map[string]any{"servers": []any{srv}}
 	switch sc.Upstream {
 	case "direct", "":
+		if sc.Unpack == "oversize" {
+			// the outgoing client's path MTU is smaller than the server's
+			cfgm["clients"] = []any{map[string]any{"name": "up", "protocol": "direct", "enableUDP": true, "mtu": 1400}}
+		}
 	case "socks5-hold", "refused":
 		cfgm["clients"] = []any{map[string]any{"name": "up", "protocol": "socks5", "network": "ip4", "endpoint": upstreamAddr, "enableUDP": true, "mtu": 1500}}
 	case "unresolvable":
@@ -519,6 +543,27 @@ func runChild(sc Scenario) (res Result) {
 		} else {
 			res.ReplyAfter = watch.wait("relay started", started+nc, 2*time.Second)
 		}
+		stop(now)
+	case "evict-unpackable":
+		// the first and only datagram(s) of the session cannot be packed by the outgoing client: nothing is ever sent
+		for _, c := range clients {
+			seq++
+			if c.sendKind(seq, sc.Unpack) == nil {
+				res.Sent++
+			}
+		}
+		res.FirstReply = watch.wait("relay started", nc, 2*time.Second) // the session exists
+		res.PackFailures = 0
+		res.Evicted = watch.wait("Finished relay serverConn -> natConn", nc, natTimeout+3*time.Second)
+		res.PackFailures = watch.count("Failed to pack packet")
+		res.GAfterEvict, res.FAfterEvict = settle(res.GRun, res.FRun+nc, 2*time.Second)
+		if res.GAfterEvict > res.GRun || res.FAfterEvict > res.FRun+nc {
+			res.LeakDump = trimDump(stacks())
+		}
+		// a normal datagram of the same client must round-trip through a fresh session
+		sendAll()
+		res.ReplyAfter = firstReplies()
+		res.StartedAfter = watch.count("relay started")
 		stop(now)
 	case "stop-idle":
 		sendAll()
